@@ -421,3 +421,37 @@ Definition message_to_publish (m : msg) (version : N) : body :=
               pr_subid := m_subids m; pr_user := m_uprops m |}
     else None in
   BPublish version (m_dup m) (m_qos m) (m_retained m) (m_topic m) (m_pid m) (m_payload m) pr.
+
+(* gmqtt.MessageFromPublish(p): the message the broker works with.  The packet id of the publisher and any
+   subscription identifier are NOT carried over (the subscriber's connection allocates its own id, identifiers are
+   those of the subscriber's subscriptions); for a version 5 packet p.Properties is dereferenced (None = nil: panic,
+   here `None`; the decoder never produces it). *)
+Definition pv_str (o : option pval) : str := match o with Some (PVStr s) => s | _ => [] end.
+Definition pv_num (o : option pval) : N := match o with Some (PVByte v) | Some (PVU16 v) | Some (PVU32 v) => v | _ => 0 end.
+Definition message_from_publish (b : body) : option msg :=
+  match b with
+  | BPublish ver dup qos retain topic pid payload pr =>
+      let base := {| m_dup := dup; m_qos := qos; m_retained := retain; m_topic := topic; m_payload := payload; m_pid := 0;
+                     m_ctype := []; m_corr := []; m_expiry := 0; m_pfmt := 0; m_resp := []; m_subids := []; m_uprops := [] |} in
+      if ver =? 5 then
+        match pr with
+        | None => None
+        | Some p =>
+            Some {| m_dup := dup; m_qos := qos; m_retained := retain; m_topic := topic; m_payload := payload; m_pid := 0;
+                    m_ctype := pv_str (ps_get 3 (pr_single p)); m_corr := pv_str (ps_get 9 (pr_single p));
+                    m_expiry := pv_num (ps_get 2 (pr_single p)); m_pfmt := pv_num (ps_get 1 (pr_single p));
+                    m_resp := pv_str (ps_get 8 (pr_single p)); m_subids := []; m_uprops := pr_user p |}
+        end
+      else Some base
+  | _ => None
+  end.
+
+(* what survives MessageToPublish followed by MessageFromPublish *)
+Definition msg_core (v5 : bool) (m : msg) : msg :=
+  if v5 then
+    {| m_dup := m_dup m; m_qos := m_qos m; m_retained := m_retained m; m_topic := m_topic m; m_payload := m_payload m; m_pid := 0;
+       m_ctype := m_ctype m; m_corr := m_corr m; m_expiry := m_expiry m; m_pfmt := (if m_pfmt m =? 1 then 1 else 0);
+       m_resp := m_resp m; m_subids := []; m_uprops := m_uprops m |}
+  else
+    {| m_dup := m_dup m; m_qos := m_qos m; m_retained := m_retained m; m_topic := m_topic m; m_payload := m_payload m; m_pid := 0;
+       m_ctype := []; m_corr := []; m_expiry := 0; m_pfmt := 0; m_resp := []; m_subids := []; m_uprops := [] |}.
